@@ -82,6 +82,18 @@ func hasCompact(acts []Act) bool {
 	return false
 }
 
+// bulkInit adds n further objects: sizes are a knob like any other (a
+// batching, chunking or memoising change only shows above its threshold).
+func bulkInit(rng *rand.Rand, n int) []world.Spec {
+	var out []world.Spec
+	for i := 0; i < n; i++ {
+		out = append(out, world.Spec{NS: nsUniverse[i%2], Name: "bulk" + strconv.Itoa(i), Labels: randLabels(rng)})
+	}
+	return out
+}
+
+func bulkSize(rng *rand.Rand) int { return pickInt(rng, 17, 40, 101, 129, 257, 300, 520) }
+
 func genInit(rng *rand.Rand, nkeys int) []world.Spec {
 	var init []world.Spec
 	for k := 0; k < nkeys; k++ {
@@ -143,6 +155,9 @@ func genC03(g GenCtx) interface{} {
 	}
 	nkeys := 1 + rng.Intn(4)
 	sc.Init = genInit(rng, nkeys)
+	if rng.Intn(12) == 0 {
+		sc.Init = append(sc.Init, bulkInit(rng, bulkSize(rng))...)
+	}
 	p := sc.PeriodMs
 	lat := []int{0, 0, p / 4, p / 2, p * 95 / 100, p * 105 / 100, 2 * p, 5 * p}
 	sc.ListLatMs = [2]int{lat[rng.Intn(len(lat))] / 2, lat[rng.Intn(len(lat))] / 2}
